@@ -530,7 +530,7 @@ class Merge(Expr):
 
             # Find columns to project on the left
             for col in left.columns:
-                if col in left_on or col in projection:
+                if col in projection:
                     project_left.append(col)
                 elif f"{col}{left_suffix}" in projection:
                     project_left.append(col)
@@ -538,10 +538,12 @@ class Merge(Expr):
                         # Right column must be present
                         # for the suffix to be applied
                         needed_right.add(col)
+                elif col in left_on:
+                    project_left.append(col)
 
             # Find columns to project on the right
             for col in right.columns:
-                if col in right_on or col in projection or col in needed_right:
+                if col in projection or col in needed_right:
                     project_right.append(col)
                 elif f"{col}{right_suffix}" in projection:
                     project_right.append(col)
@@ -549,6 +551,8 @@ class Merge(Expr):
                         # Left column must be present
                         # for the suffix to be applied
                         project_left.append(col)
+                elif col in right_on:
+                    project_right.append(col)
 
             if set(project_left) < set(left.columns) or set(project_right) < set(
                 right.columns
